@@ -708,12 +708,19 @@ func (c *diskCache) get(ctx context.Context, kind cache.EntryKind, hash string, 
 		return nil, -1, internalErr(err)
 	}
 
+	uncompressedOnDisk := (kind != cache.CAS) || (c.storageMode == casblob.Identity)
+	if uncompressedOnDisk && sizeOnDisk != foundSize {
+		// Compressed CAS blobs are validated against their header below, but
+		// nothing else would notice a backend stream that ended early.
+		log.Printf("Warning: proxy backend returned %d bytes for %s, expected %d", sizeOnDisk, key, foundSize)
+		return nil, -1, nil
+	}
+
 	rcf, err := os.Open(blobFile)
 	if err != nil {
 		return nil, -1, internalErr(err)
 	}
 
-	uncompressedOnDisk := (kind != cache.CAS) || (c.storageMode == casblob.Identity)
 	if uncompressedOnDisk {
 		if offset > 0 {
 			_, err = rcf.Seek(offset, io.SeekStart)
